@@ -6,7 +6,7 @@
 # The scratch worktree is created under /tmp and removed at the end.
 set -u
 VERIF=$(cd "$(dirname "$0")/.." && pwd)
-WT=/tmp/seedmatrix_wt
+WT=${SEEDMATRIX_WT:-/tmp/seedmatrix_wt}
 git -C /repo worktree remove --force $WT >/dev/null 2>&1
 git -C /repo worktree add --detach $WT HEAD >/dev/null 2>&1 || { echo "cannot create worktree"; exit 2; }
 trap 'git -C /repo worktree remove --force $WT >/dev/null 2>&1; git -C /repo worktree prune' EXIT
@@ -19,7 +19,7 @@ for s in $seeds; do
         p=$VERIF/seeded/$s/patch.diff
         [ -f "$p" ] || { echo "$s $chk NO-PATCH"; continue; }
         git -C $WT checkout -q -- . && git -C $WT apply "$p" || { echo "$s $chk PATCH-DOES-NOT-APPLY"; continue; }
-        out=$(IMBV_REPO=$WT VERIF_OUT_DIR=/tmp/seedmatrix_out python3 check.py $chk 2>&1)
+        out=$(IMBV_REPO=$WT VERIF_OUT_DIR=${WT}_out python3 check.py $chk 2>&1)
         rc=$?
         n=$(echo "$out" | grep -c '^VIOLATION')
         first=$(echo "$out" | grep -m1 'key=' | sed 's/^ *//' | cut -c1-200)
